@@ -100,8 +100,10 @@ def _observe(ctor: str, text: str, fn) -> dict:
     try:
         o = fn()
     except Exception as err:  # noqa: BLE001
+        # why: a coarse class of the refusal, only used to make the finding key specific (never to judge)
+        why = "array-rule" if "array" in str(err) else ""
         return {"ctor": ctor, "text": text, "acc": 0, "exc": type(err).__name__,
-                "gram": int(isinstance(err, exc.PacketInvalid))}
+                "gram": int(isinstance(err, exc.PacketInvalid)), "why": why}
     try:
         of = {"verb": o.verb, "seqn": o.seqn, "a0": repr(o._addrs[0]), "a1": repr(o._addrs[1]), "a2": repr(o._addrs[2]),
               "code": o.code, "len": o.len_, "payload": o.payload}
